@@ -727,7 +727,7 @@ def inline_new_helpers(F):
             if not (isinstance(t, dict) and t.get("k") == "Call" and (callee(t) or "").split("::")[-1] == "Ok" and len(t.get("args", [])) == 1):
                 return None
             tail = t["args"][0]
-        return {"k": "Block", "stmts": lets + list(body.get("stmts", [])), "expr": tail, "ty": call.get("ty"), "sp": call.get("sp"), "_inlined": d}
+        return {"k": "Block", "stmts": lets + list(body.get("stmts", [])), "expr": tail, "ty": call.get("ty"), "sp": call.get("sp"), "_inlined": d, "_unwrapped": bool(has_try)}
 
     def visit(n, depth):
         """Replace eligible calls inside n (in place); returns True when something was inlined."""
@@ -746,7 +746,10 @@ def inline_new_helpers(F):
                 blk = expand(tgt, under) if tgt.get("k") in ("Call", "MCall") and depth < 4 else None
                 if blk is not None:
                     visit(blk, depth + 1)
-                    n[k] = blk
+                    if under and not blk.get("_unwrapped"):
+                        v["e"] = blk           # the helper's own Result is still propagated by the `?`
+                    else:
+                        n[k] = blk
                     hit = True
                 else:
                     hit = visit(v, depth) or hit
@@ -759,7 +762,10 @@ def inline_new_helpers(F):
                         blk = expand(tgt, under) if tgt.get("k") in ("Call", "MCall") and depth < 4 else None
                         if blk is not None:
                             visit(blk, depth + 1)
-                            v[i] = blk
+                            if under and not blk.get("_unwrapped"):
+                                x["e"] = blk
+                            else:
+                                v[i] = blk
                             hit = True
                         else:
                             hit = visit(x, depth) or hit
@@ -1038,6 +1044,18 @@ def normalise_matches(body):
                 blk["expr"] = te["expr"]
 
 
+def assigned_locals_direct(root, lid):
+    """{lid} if the local itself is re-assigned (`r = …`, not `*r = …`) somewhere, else empty."""
+    for n in walk(root):
+        if n.get("k") == "Assign":
+            l = n["l"]
+            while isinstance(l, dict) and l.get("k") in ("Paren", "DropTemps", "Use"):
+                l = l.get("e")
+            if isinstance(l, dict) and l.get("k") == "Local" and l.get("id") == lid:
+                return {lid}
+    return set()
+
+
 def simplify_lets(body):
     """Three behaviour-preserving rewrites that undo common "introduce a temporary" refactorings, so that rules see one spelling:
     (1) an immutable `let b: bool = <pure test>` is substituted at its uses;
@@ -1154,6 +1172,41 @@ def simplify_lets(body):
             if any(x is uses[lid][0][0] for x in walk(zone)):
                 subst[lid] = a["init"]
                 drop.append(a)
+    # (2c) `let v = if c { A } else { B };` (any content) used exactly once in the *very next* statement as the operand of `return` / of a result
+    #      constructor in return or tail position: nothing runs in between, so the `if` can be written there (rules (4)/(5) then distribute over it)
+    for blk in walk(root):
+        if blk.get("k") != "Block" or not blk.get("stmts"):
+            continue
+        seq = list(blk["stmts"]) + ([{"k": "ExprS", "e": blk["expr"], "_tail": True}] if blk.get("expr") is not None else [])
+        for a, b_ in zip(seq, seq[1:]):
+            if a.get("k") != "LetS" or a["pat"].get("k") != "Bind" or "init" not in a or "Mut)" in a["pat"].get("mode", "") or "els" in a:
+                continue
+            lid = a["pat"]["id"]
+            init = a["init"]
+            while isinstance(init, dict) and init.get("k") == "Block" and not init.get("stmts") and init.get("expr") is not None:
+                init = init["expr"]
+            if lid in subst or lid in assigned_locals or len(uses.get(lid, [])) != 1 or not (isinstance(init, dict) and init.get("k") == "If" and "e" in init):
+                continue
+            e = b_.get("e") if b_.get("k") in ("ExprS", "Semi") else None
+            x = e
+            if isinstance(x, dict) and x.get("k") == "Ret" and "e" in x:
+                x = x["e"]
+            while isinstance(x, dict) and x.get("k") == "Call" and len(x.get("args", [])) == 1 and (callee(x) or "").split("::")[-1] in ("Ok", "Err", "Some"):
+                x = x["args"][0]
+            if x is uses[lid][0][0] and (b_.get("_tail") or (isinstance(e, dict) and e.get("k") == "Ret")):
+                subst[lid] = a["init"]
+                drop.append(a)
+    # (2d) `let r = &mut self.f;` / `let r = &self.f;` — a reference to a field *is* that field wherever it is used
+    for n in walk(root):
+        if n.get("k") != "LetS" or n["pat"].get("k") != "Bind" or "init" not in n or "Mut)" in n["pat"].get("mode", "") or "els" in n:
+            continue
+        lid = n["pat"]["id"]
+        init = n["init"]
+        if lid in subst or lid in assigned_locals_direct(root, lid):
+            continue
+        if isinstance(init, dict) and init.get("k") == "Ref" and isinstance(init.get("e"), dict) and init["e"].get("k") == "Field" and (place(init["e"]) or "").startswith("self."):
+            subst[lid] = init
+            drop.append(n)
     if subst:
         def repl(e):
             if isinstance(e, dict):
